@@ -82,6 +82,21 @@ def oracle_C08(rs, n, ctx):
         vs = np.array([tt(p) for p in pts])
         if not np.array_equal(vl, vs, equal_nan=True):
             R.violate("C08:call", "list point evaluation differs from single evaluations", rep)
+        # the fill value in other representations (Python int, NumPy float32, bool): the list kernels have no explicit
+        # signature and are specialised on its type; items must still equal the single evaluations, as float64
+        fv = [-1, 0, np.float32(2.5), -1.0, True][it % 5]
+        pts_f = np.array(pts)
+        pts_f[-1] = [ax[-1] + 1.0 for ax in axes]
+        for who, f_ in (("traveltime", tt),) + ((("model", E),) if min(cells) >= 2 else ()):
+            try:
+                vlf = f_(pts_f, fill_value=fv)
+                vsf = np.array([f_(p, fill_value=fv) for p in pts_f])
+            except Exception as ex:  # noqa: BLE001
+                R.violate("C08:call-fill-raises", f"{who} evaluation with fill_value={fv!r}: {type(ex).__name__}: {ex}", dict(rep, fill_value=repr(fv)))
+                continue
+            R.bump("fill_value_variants")
+            if np.asarray(vlf).dtype != np.float64 or not np.array_equal(np.asarray(vlf, dtype=np.float64), np.asarray(vsf, dtype=np.float64), equal_nan=True):
+                R.violate("C08:call-fill", f"list {who} evaluation with fill_value={fv!r} (dtype {np.asarray(vlf).dtype}) differs from the single evaluations", dict(rep, fill_value=repr(fv), points=pts_f.tolist()))
         if min(cells) >= 2:   # (a model with a single sample along an axis is outside C14's domain: finding F13)
             gl = E(pts)
             gs = np.array([E(p) for p in pts])
@@ -316,6 +331,24 @@ def ray_oracle(rs, n, ctx, honor):
                 continue
             if "max_step" in kw and len(ray) > kw["max_step"] + 1:
                 R.violate(f"{pid}:budget", f"{len(ray)} vertices returned with max_step={kw['max_step']}", rep)
+            if "max_step" not in kw:
+                # budget ladder: the ray stores k = len(ray) - 1 vertices before the source is appended.  The budget only
+                # decides between "raise" and "return": max_step <= k must raise RuntimeError, max_step >= k + 1 must
+                # return the very same ray (never a ray cut short and closed with a jump to the source)
+                k_st = len(ray) - 1
+                for M in sorted({max(1, k_st - 1), k_st, k_st + 1, k_st + 3}):
+                    try:
+                        rM = np.asarray(tt.raytrace(p, max_step=M, **kw))
+                    except RuntimeError:
+                        rM = None
+                    except Exception as ex:  # noqa: BLE001
+                        R.violate(f"{pid}:budget-ladder-raises:{type(ex).__name__}", f"max_step={M}: {type(ex).__name__}: {ex}", dict(rep, max_step=M))
+                        continue
+                    R.bump("budget_ladder")
+                    if M <= k_st and rM is not None:
+                        R.violate(f"{pid}:budget-truncated-ray", f"the full ray stores {k_st} vertices, yet max_step={M} returned a ray of {len(rM)} rows instead of raising", dict(rep, max_step=M))
+                    elif M > k_st and (rM is None or rM.shape != ray.shape or not np.array_equal(rM, ray)):
+                        R.violate(f"{pid}:budget-changes-ray", f"the full ray stores {k_st} vertices, yet max_step={M} " + ("raised RuntimeError" if rM is None else f"returned a different ray ({len(rM)} rows)"), dict(rep, max_step=M))
             step = kw.get("stepsize", float(min(d)))
             seg = np.linalg.norm(np.diff(ray, axis=0), axis=1)
             if not honor and (seg > step * (1 + 1e-9)).any():
@@ -647,6 +680,32 @@ def oracle_C13(rs, n, ctx):
                     pass
                 except BaseException as ex:  # noqa: BLE001
                     R.violate(f"C13:{form}-budget", f"raised {type(ex).__name__} instead of RuntimeError", dict(rrep, far=far.tolist()))
+        # budget ladder (both modes): a ray that stores k vertices under the default budget must raise RuntimeError with
+        # max_step = k (single call and as an item of a list) and come back unchanged with max_step = k + 1
+        try:
+            full = np.asarray(tt.raytrace(pgood[0], honor_grid=honor))
+        except RuntimeError:
+            full = None
+        if full is not None and len(full) >= 3:
+            k_st = len(full) - 1
+            lrep = dict(rrep, end_point=pgood[0].tolist(), stored=k_st)
+            for form in ("single", "list"):
+                arg = pgood[0] if form == "single" else np.array([pgood[0], pgood[0]])
+                try:
+                    r = tt.raytrace(arg, max_step=k_st, honor_grid=honor)
+                    R.violate(f"C13:{form}-budget-truncated", f"{form} raytrace: the ray stores {k_st} vertices, max_step={k_st} returned instead of raising RuntimeError", lrep)
+                except RuntimeError:
+                    pass
+                except BaseException as ex:  # noqa: BLE001
+                    R.violate(f"C13:{form}-budget", f"raised {type(ex).__name__} instead of RuntimeError", lrep)
+                try:
+                    r = tt.raytrace(arg, max_step=k_st + 1, honor_grid=honor)
+                    r0 = np.asarray(r if form == "single" else r[1])
+                    if r0.shape != full.shape or not np.array_equal(r0, full):
+                        R.violate(f"C13:{form}-budget-changes-ray", f"{form} raytrace with max_step={k_st + 1} (exactly enough) returned a different ray ({len(r0)} rows vs {len(full)})", lrep)
+                except BaseException as ex:  # noqa: BLE001
+                    R.violate(f"C13:{form}-sufficient-budget-raises", f"max_step={k_st + 1} (exactly enough) raised {type(ex).__name__}", lrep)
+            R.bump("budget_ladders")
         # valid rays do not raise ValueError
         try:
             tt.raytrace(np.array(pgood), honor_grid=honor)
